@@ -246,7 +246,7 @@ def sine_of(x):
 # --------------------------------------------------------------------------- the math functions
 
 def _box(ctx, name, x, lo=-1, hi=1):
-    key = (name, (x.n if x.k == 'q' else x.e).get_id(), x.d)
+    key = (name, z3.simplify(x.re()).sexpr())
     v = ctx.memo.get(key)
     if v is None:
         v = z3.Real(ctx.fresh_name(name))
@@ -307,7 +307,7 @@ def _as_angle(x):
         y = Num(x.k, x.n, x.d, x.e, ty=x.ty, iv=x.iv)
         y.ang = Ang({}, deg, 'rad')
         return y
-    key = ('free', (x.n if x.k == 'q' else x.e).get_id(), x.d)
+    key = ('free', z3.simplify(x.re()).sexpr())      # structural key: equal arguments share the atom
     at = new_atom(ctx, key)
     ctx.path.notes.append('free-angle')
     y = Num('r', e=x.re(), ty=float)
